@@ -20,7 +20,8 @@ DISTINCT = ('config_cells',)
 REQUIRED = ('wrapper_calls', 'signatures', 'repeat_calls_served_from_cache', 'key_pairs_compared', 'expiry_cases',
             'expire_zero_cases', 'falsy_results', 'decorator_cache', 'decorator_fanout', 'decorator_index',
             'decorator_django', 'decorator_stampede', 'derived_name_cases', 'contended_first_calls',
-            'decorator_objects_reused', 'stacked_memoizations', 'repeats_with_keywords_reordered', 'failing_function_cases', 'calls_beside_an_early_recomputation')
+            'decorator_objects_reused', 'stacked_memoizations', 'repeats_with_keywords_reordered', 'failing_function_cases', 'calls_beside_an_early_recomputation',
+            'decorator_options_passed_by_position')
 ASSUMPTIONS = ('two calls are "the same arguments" when positional/keyword binding matches and values are equal under == '
                '(and have equal types when typed); ignored positions/names are removed first',
                'memoize_stampede: the probe runs in ~0 virtual time so early recomputation has probability ~0')
@@ -111,22 +112,59 @@ def ser(put):
     return (bytes(k) if isinstance(k, (bytes, memoryview)) else k, raw)
 
 
+# documented parameter orders of the decorators (after the leading cache / expire arguments); a share of the decorator
+# calls passes a prefix of the given options by position
+import random as _random
+_SPELL = _random.Random(0x16)
+DECORATOR_ORDERS = {
+    'cache': [('name', None), ('typed', False), ('expire', None), ('tag', None), ('ignore', ())],
+    'fanout': [('name', None), ('typed', False), ('expire', None), ('tag', None), ('ignore', ())],
+    'index': [('name', None), ('typed', False), ('ignore', ())],
+    'stampede': [('name', None), ('typed', False), ('tag', None), ('beta', 1), ('ignore', ())],
+}
+POSITIONAL_DECORATOR_CALLS = [0]
+
+
+def spelled_options(kind, o):
+    order = DECORATOR_ORDERS.get(kind)
+    if not order or not o or _SPELL.random() < 0.5:
+        return (), o
+    present = [i for i, (n, _) in enumerate(order) if n in o]
+    if not present:
+        return (), o
+    upto = _SPELL.randrange(0, present[-1] + 2)
+    o = dict(o)
+    pos = tuple(o.pop(n) if n in o else dflt for n, dflt in order[:upto])
+    if pos:
+        POSITIONAL_DECORATOR_CALLS[0] += 1
+    return pos, o
+
+
 def build(dc, sc, kind, clock):
     """Return (decorate(func, **opts), cache-like, closer, key_bytes(key)).  decorate.many(funcs, **opts) applies ONE
     decorator object (one memoize(...) call) to several functions."""
     d = sc.new()
     if kind == 'cache':
         c = dc.Cache(d)
-        factory, cache, closer, kb = (lambda **o: c.memoize(**o)), c, c.close, (lambda key: ser(c.disk.put(key)))
+
+        def factory(**o):
+            pos, o = spelled_options('cache', o)
+            return c.memoize(*pos, **o)
+        cache, closer, kb = c, c.close, (lambda key: ser(c.disk.put(key)))
     elif kind == 'fanout':
         c = dc.FanoutCache(d, shards=3)
-        factory, cache, closer, kb = (lambda **o: c.memoize(**o)), c, c.close, (lambda key: ser(c.disk.put(key)))
+
+        def factory(**o):
+            pos, o = spelled_options('fanout', o)
+            return c.memoize(*pos, **o)
+        cache, closer, kb = c, c.close, (lambda key: ser(c.disk.put(key)))
     elif kind == 'index':
         ix = dc.Index(d)
 
         def factory(**o):
             o.pop('expire', None)
-            return ix.memoize(**o)
+            pos, o = spelled_options('index', o)
+            return ix.memoize(*pos, **o)
         cache, closer, kb = ix.cache, ix.cache.close, (lambda key: ser(ix.cache.disk.put(key)))
     elif kind == 'django':
         from diskcache import DjangoCache
@@ -142,7 +180,8 @@ def build(dc, sc, kind, clock):
 
         def factory(**o):
             expire = o.pop('expire', 1000)
-            return dc.memoize_stampede(c, expire, **o)
+            pos, o = spelled_options('stampede', o)
+            return dc.memoize_stampede(c, expire, *pos, **o)
         cache, closer, kb = c, c.close, (lambda key: ser(c.disk.put(key)))
 
     def deco(f, **o):
@@ -258,6 +297,8 @@ def sweep(dc, sc, res, kind, typed, ignore, named, sigs, label):
                               {'label': label, 'named': named, 'name': given})
             res.count('entry_names_checked')
         res.count('decorator_' + kind)
+        res.count('decorator_options_passed_by_position', POSITIONAL_DECORATOR_CALLS[0])
+        POSITIONAL_DECORATOR_CALLS[0] = 0
         res.seen('config_cells', (kind, typed, tuple(sorted(map(str, ignore))), named))
         if len(res.samples) < 2:
             res.sample({'label': label, 'kind': kind, 'typed': typed, 'ignore': sorted(map(str, ignore)), 'named': named,
